@@ -70,6 +70,20 @@ type calibrator struct {
 
 func startCalibrator() *calibrator {
 	c := &calibrator{}
+	// a CPU-bound probe: the longest gap between two clock reads of a spinning goroutine shows
+	// how long the OS keeps a busy goroutine (like a catastrophic match) off the CPU
+	c.wg.Add(1)
+	go func() {
+		defer c.wg.Done()
+		last := time.Now()
+		for !c.stop.Load() {
+			now := time.Now()
+			if gap := now.Sub(last); int64(gap) > c.max.Load() {
+				c.max.Store(int64(gap))
+			}
+			last = now
+		}
+	}()
 	c.wg.Add(1)
 	go func() {
 		defer c.wg.Done()
@@ -95,6 +109,9 @@ type stepObs struct {
 	latency time.Duration
 	err     string
 	suspect string
+	// for timing suspects: by how much the window was missed; such a suspect is dropped when the
+	// scheduler overshoot measured during the same run is at least that large
+	missedBy time.Duration
 }
 
 func timedMatch(d time.Duration, in []rune) (time.Duration, error) {
@@ -133,8 +150,10 @@ func runTimedHistory(h []tStep, tol time.Duration) (obs []stepObs, snapshots []s
 				o.suspect = "error other than a timeout: " + err.Error()
 			case lat < s.d-earlySlack-tol:
 				o.suspect = fmt.Sprintf("timeout after %v, earlier than the %v requested", lat, s.d)
+				o.missedBy = s.d - earlySlack - lat
 			case lat > s.d+lateSlack+tol:
 				o.suspect = fmt.Sprintf("timeout only after %v for a %v timeout", lat, s.d)
+				o.missedBy = lat - s.d - lateSlack
 			}
 		case "Q":
 			lat, err := timedMatch(s.d, quickInput)
@@ -164,6 +183,7 @@ func runTimedHistory(h []tStep, tol time.Duration) (obs []stepObs, snapshots []s
 		case "P":
 			var wg sync.WaitGroup
 			res := make([]string, s.k)
+			missed := make([]time.Duration, s.k)
 			t := time.Now()
 			for i := 0; i < s.k; i++ {
 				wg.Add(1)
@@ -176,17 +196,19 @@ func runTimedHistory(h []tStep, tol time.Duration) (obs []stepObs, snapshots []s
 						res[i] = fmt.Sprintf("concurrent match %d (timeout %v) returned %v", i, d, err)
 					case lat < d-earlySlack-tol:
 						res[i] = fmt.Sprintf("concurrent match %d timed out after %v, earlier than %v", i, lat, d)
+						missed[i] = d - earlySlack - lat
 					case lat > d+lateSlack+tol+time.Duration(s.k)*5*time.Millisecond:
 						res[i] = fmt.Sprintf("concurrent match %d timed out only after %v for %v", i, lat, d)
+						missed[i] = lat - d - lateSlack - time.Duration(s.k)*5*time.Millisecond
 					}
 				}(i)
 			}
 			wg.Wait()
 			o.latency = time.Since(t)
-			for _, x := range res {
-				if x != "" {
-					o.suspect = x
-					break
+			for i, x := range res {
+				if x != "" && (o.suspect == "" || (missed[i] == 0 && o.missedBy != 0)) {
+					// prefer a non-timing complaint; among timing ones keep the first
+					o.suspect, o.missedBy = x, missed[i]
 				}
 			}
 		}
@@ -285,6 +307,14 @@ func c14ChildMain(spec string) int {
 	obs, snaps := runTimedHistory(hs[idx], 0)
 	over := cal.finish()
 	out := c14Obs{Snapshots: snaps, Overshoot: int64(over)}
+	for i := range obs {
+		// a window missed by no more than the overshoot measured during this very run says
+		// nothing about the clock: the machine kept goroutines off the CPU that long
+		if obs[i].missedBy > 0 && obs[i].missedBy <= over+2*time.Millisecond {
+			obs[i].err += fmt.Sprintf(" (window missed by %v, scheduler overshoot %v: not counted)", obs[i].missedBy, over)
+			obs[i].suspect = ""
+		}
+	}
 	for _, o := range obs {
 		out.Steps = append(out.Steps, o.step.String())
 		out.Latency = append(out.Latency, o.latency.Round(100*time.Microsecond).String())
